@@ -182,6 +182,8 @@ def stop_model(rates, k, max_cycles, fitness_error, es):
 def c04_obs(desc, rec):
     out = []
     opt = desc["optimizer"]
+    if rec.wall_limit and not rec.deadlock:
+        return out          # cut off by the harness's wall budget: no verdict
     if rec.step_limit and not rec.deadlock and any(len(v.get("lb") or []) > 16 for v in desc["task"]["vars"]
                                                    if isinstance(v.get("lb"), list)):
         # a task with tens or hundreds of variables: the event budget is a budget, not evidence of non-termination
@@ -326,16 +328,48 @@ def c10(desc, rec):
 
 
 # ----------------------------------------------------------------------------- C15 (history fidelity)
-def c15(desc, rec):
+def _earlier_results_intact(desc, rec):
+    """A result handed to the caller by an earlier run is as durable as a recorded generation: the later runs (on the
+    same instance, on another instance sharing the configuration, in the same process) must not rewrite it."""
     out = []
+    opt = desc["optimizer"]
+    for n, (res, snap) in enumerate(rec.earlier_results or []):
+        try:
+            now = {"evolution": [[(a.position, a.cost, a.fitness) for a in g.agents] for g in res.evolution],
+                   "rates": list(res.rates), "best": (res.best_solution.position, res.best_solution.cost,
+                                                      res.best_solution.fitness)}
+        except Exception as e:
+            out.append({"cls": [opt, "earlier_result_rewritten", "unreadable"], "msg": f"earlier result #{n}: {e}"})
+            continue
+        what = None
+        if len(now["evolution"]) != len(snap["evolution"]):
+            what = ("size", f"{len(snap['evolution'])} generations when returned, {len(now['evolution'])} now")
+        elif not _deep_equal(now["rates"], snap["rates"]):
+            what = ("rates", f"rates were {snap['rates'][:3]}..., now {now['rates'][:3]}...")
+        elif not _deep_equal(list(now["best"]), list(snap["best"])):
+            what = ("best", f"best_solution was {str(snap['best'])[:80]}, now {str(now['best'])[:80]}")
+        else:
+            for k, (ga, gs) in enumerate(zip(now["evolution"], snap["evolution"])):
+                if not _deep_equal([list(a) for a in ga], [list(a) for a in gs]):
+                    what = ("generation", f"generation {k} of the earlier result changed")
+                    break
+        if what:
+            out.append({"cls": [opt, "earlier_result_rewritten", what[0]],
+                        "msg": f"the result returned by earlier run #{n} was altered by a later run: {what[1]}"})
+            break
+    return out
+
+
+def c15(desc, rec):
+    out = _earlier_results_intact(desc, rec)
     if rec.result is None or not rec.snapshots:
         return out
     opt = desc["optimizer"]
     mm = desc["task"]["minmax"]
     res = rec.result
     if len(res.evolution) != len(rec.snapshots):
-        return [{"cls": [opt, "history_length"], "msg": f"{len(res.evolution)} recorded generations, "
-                                                        f"{len(rec.snapshots)} were appended during the run"}]
+        return out + [{"cls": [opt, "history_length"], "msg": f"{len(res.evolution)} recorded generations, "
+                                                              f"{len(rec.snapshots)} were appended during the run"}]
     seen = set()
     for k, (gen, snap) in enumerate(zip(res.evolution, rec.snapshots)):
         if len(gen.agents) != len(snap):
@@ -505,6 +539,8 @@ def c11_pool(desc, rec):
     for pid_, parent, label, first in rec.ctx_firsts or []:
         if parent is None or not first or not label.startswith("pool"):
             continue
+        if rec.via and parent == 0:
+            continue        # workers of the driving utility's own pool: each runs a whole (possibly seeded) trial
         name, _, val = first[0].partition(":")
         if name in ("uniform", "random", "random_sample", "rand", "normal", "standard_normal") and "0x" in val:
             pools.setdefault(label.split("w")[0], []).append(first[0])
